@@ -167,6 +167,13 @@ class Wrapper(Part):
                             else ('after_singular' if any(o.endswith(':S') for o in prev) else 'other')
                         out.bad(f'wrong_solution:{lib}:{kind}:{cause}', f'{lib}.{kind}({name}) after {prev}: residual {res:.3e}, '
                                 f'x={np.round(x, 6).tolist()}')
+                    elif kind == 'lin':
+                        # callers of the one-shot entry point (EIG reduction, first-step estimate with one state) ignore the
+                        # return value and read the right-hand side, which every back-end overwrites with the solution
+                        xb = np.array(b, dtype=float).ravel()
+                        if xb.size != n or not np.linalg.norm(A @ xb - B) <= 1e-9 * np.linalg.norm(B):
+                            out.bad(f'rhs_not_overwritten_with_solution:{lib}', f'{lib}.linsolve({name}, N x 1 matrix rhs): the returned '
+                                    f'vector solves the system but the right-hand side still holds {np.round(xb, 6).tolist()}')
                 log.append((op, 'ok' if judged else 'cached'))
             except Exception as e:
                 if singular or not judged:
